@@ -137,8 +137,9 @@ class Ctx:
             new.append(rec)
         for rec in new:
             path = os.path.join(VERIF, "replay", "%s-%s.json" % (self.prop, _slug(rec["key"])))
-            with open(path, "w") as fh:
-                json.dump({"property": self.prop, "tier": self.tier, **rec}, fh, indent=1)
+            if not os.environ.get("VERIF_NO_EVIDENCE"):
+                with open(path, "w") as fh:
+                    json.dump({"property": self.prop, "tier": self.tier, **rec}, fh, indent=1)
             print(
                 "%s: [%s] %s in `%s` (%s)%s\n    %s"
                 % (
@@ -172,6 +173,8 @@ class Ctx:
         return 1 if new else 0
 
     def _write_evidence(self, wall, nviol):
+        if os.environ.get("VERIF_NO_EVIDENCE"):
+            return  # evaluation of a seeded change against a scratch tree: never touch evidence/
         obs = self.obligations
         distinct = set()
         for o in obs:
